@@ -19,6 +19,26 @@ CHECKS = {
         design="§4 C06"),
 }
 
+CHECKS["C19"] = dict(
+    engine="E2 mirsym (MIR -> z3)", technique="symbolic execution of rustc MIR (overflow checks on), SMT (z3) queries over 64-bit bit-vectors, native replay",
+    text="Bounded symbolic model checking of the diagnostic rendering kernel: format_location with its three closures, "
+         "Position::get_width/invisible inlined, LexErr::fmt and Position::union are executed path by path with the "
+         "position, offset and number of source lines as free bit-vectors; z3 decides panic-freedom, that the quoted "
+         "line is line pos.start.line printed with that number, the caret run, and containment of union.",
+    note="Bounds: coordinates <= 2^31-2 and >= 1 (or invisible), <= 2^20 source lines, offset <= 1. str::lines().nth "
+         "and String::from_utf8 are contract stubs; fmt machinery uninterpreted. Not claimed: that every error path "
+         "attaches the right file, and fault-line localisation (whole checker).",
+    design="§4 C19")
+CHECKS["C18"] = dict(
+    engine="E2 mirsym (MIR -> z3) + E1 kani", technique="symbolic execution of rustc MIR + z3 (inductive composition of State summaries); Kani/CBMC harnesses for lexer steps",
+    text="Bounded symbolic model checking of the lexer kernels: State::token/newline/space/flush_indents, Lex::new and "
+         "CaretPos arithmetic from MIR over the whole integer range (<= 2^20 coordinates) with an abstract sequence "
+         "model for Vec; z3 decides span/caret exactness per step and proves Indent/Dedent balance by an inductive "
+         "step over the extracted counts (any number of lines).",
+    note="Token::width and newline counting are contract stubs in the State kernels; whole-tokenize runs, the column "
+         "after a multi-line string and consumers of positions are outside the claim.",
+    design="§4 C18")
+
 NOT_APPLICABLE = {
     "C02": "needs the generator executed on symbolic programs (core::fmt/to_py recursion does not finish in CBMC even on concrete 3-node trees) and membership in Python's grammar as the assertion; no encodable kernel (DESIGN §6)",
     "C04": "oracle is Python's dynamic semantics over whole programs and the subject is the whole checker (HashSet/recursion out of reach of Kani; not loop-free for the MIR executor) (DESIGN §6)",
@@ -62,7 +82,7 @@ def main():
         "hooks": {
             "guard": "cfg(any(kani, mamba_verif))",
             "enable": "RUSTFLAGS='--cfg mamba_verif' for the native replay binary; cargo kani sets cfg(kani) for the dependency",
-            "baseline_off_cmd": "cd /repo && cargo test --workspace --no-fail-fast --offline",
+            "baseline_off_cmd": "cd /repo && PYENV_VERSION=3.10.13:3.11.7 cargo test --workspace --no-fail-fast --offline",
             "source_commits": ["655fb0b"],
             "add_only": True,
         },
